@@ -160,6 +160,20 @@ def h_zero(nb, sym):
   return h
 
 
+
+def _saturation_checks(e, x, sc, zp, q, lo, hi):
+  """Out-of-range values saturate at the end of the range they lie beyond:
+  with v = x * (1/scale) + zp evaluated in float32 as the specification
+  clip(round(x / scale + zp)) prescribes, v >= hi + 1 gives hi and
+  v <= lo - 1 gives lo."""
+  v = (_as_sym(x) * (1.0 / _as_sym(sc))) + _as_sym(zp)
+  t = v.terms()[0]
+  z = _int_term(q)
+  e.check('C17.quantize.saturates_at_the_correct_end',
+          z3.And(z3.Implies(z3.fpGEQ(t, _fp(float(hi + 1))), z == hi),
+                 z3.Implies(z3.fpLEQ(t, _fp(float(lo - 1))), z == lo)))
+
+
 def h_qrange(nb, sym):
   def h(e):
     be = symnp.set_backend(B.Bits())
@@ -178,7 +192,9 @@ def h_qrange(nb, sym):
     e.check('C17.quantize.in_range', z3.And(z >= lo, z <= hi))
     want = np.int8 if nb <= 8 else np.int16
     e.check('C17.quantize.dtype', q.dtype == want)
-    for ob in be.side[n_side:]:
+    side = list(be.side[n_side:])
+    _saturation_checks(e, x, sc, zp, q, lo, hi)
+    for ob in side:
       e.check('C17.quantize.cast_in_range', ob.cond)
   return h
 
@@ -275,7 +291,9 @@ def h_qrange_g(nb, sym):
     e.check('C17.quantize.in_range', z3.And(z >= lo, z <= hi))
     want = np.int8 if nb <= 8 else np.int16
     e.check('C17.quantize.dtype', q.dtype == want)
-    for ob in be.side:
+    side = list(be.side)
+    _saturation_checks(e, x, sc, zp, q, lo, hi)
+    for ob in side:
       e.check('C17.quantize.cast_in_range', ob.cond)
   return h
 
@@ -845,6 +863,19 @@ def _replay_g(c, d, ob, kind, nb, sym):
     x = np.array([_f(d, 'x')], np.float32)
     q = uqt.uniform_quantize(x, p)
     bad = not (lo <= int(q[0]) <= hi)
+    # specification: clip(round(x * (1/scale) + zp)) in float32, clipped in
+    # exact integers
+    v = np.float32(x[0] * (np.float32(1.0) / np.float32(p.scale[0]))) + \
+        np.float32(int(p.zero_point[0]))
+    if np.isfinite(v):
+      ref = min(max(int(np.rint(np.float64(v))), lo), hi)
+    else:
+      ref = hi if v > 0 else lo
+    if not np.isnan(v) and int(q[0]) != ref:
+      return True, 'quantize-saturation', (
+          f'num_bits={nb} symmetric={sym} scale={p.scale[0]!r} '
+          f'zp={int(p.zero_point[0])} x={x[0]!r}: q={int(q[0])}, '
+          f'clip(round(x/scale+zp))={ref}')
     return bad, 'quantize-range', (
         f'num_bits={nb} symmetric={sym} scale={p.scale[0]!r} '
         f'zp={int(p.zero_point[0])} x={x[0]!r}: q={int(q[0])}')
